@@ -119,6 +119,8 @@ def classify(kind, cfg, bad, case):
         feats.append("cells-wrong")
     if case.get("origin"):
         feats.append("time-origin>0")
+    if case.get("scale", 1.0) != 1.0:
+        feats.append("time-scale!=1")
     if cfg.get("wfun", "fixed") != "fixed":
         feats.append("variable-window")
     if cfg.get("kargs"):
@@ -155,6 +157,7 @@ MULTI_CFGS = list(product_dicts(radii=[[1], [2]], kernel=["flat", "geometric"],
     dict(radii=[1], kernel="flat", orient="after", normwin=False, kargs={"normalize": True}),
 ]
 ORIGINS = [0.0, 1e3, 2.0 ** 24 + 1, 1.6e9, 1e12]
+SCALES = [1e-7, 1e-3, 1e6]      # the unit of the time axis: weights depend on differences relative to the mean gap only
 GAPS = [(1, 1, 1), (1, 3, 1), (0, 2, 1), (2, 0.5, 3)]
 
 
@@ -170,15 +173,15 @@ def _timed_cases(tier):
     for cfg in TIMED_CFGS:
         for d in itertools.product(docs, repeat=2):
             for gaps in GAPS:
-                for origin in ORIGINS:
+                for origin, scale in [(o, 1.0) for o in ORIGINS] + [(0.0, sc) for sc in SCALES]:
                     times = []
                     for doc in d:
                         t, ts = origin, []
                         for i in range(len(doc)):
                             ts.append(t)
-                            t += gaps[i % len(gaps)]
+                            t += gaps[i % len(gaps)] * scale
                         times.append(ts)
-                    yield {"kind": "timed", "cfg": cfg, "docs": list(d), "times": times, "origin": origin}
+                    yield {"kind": "timed", "cfg": cfg, "docs": list(d), "times": times, "origin": origin, "scale": scale}
 
 
 def _multiset_docs(tier):
